@@ -30,6 +30,7 @@ import GlmVerif.Props.C04.T_orientate3
 import GlmVerif.Props.C04.T_eulerAngles
 import GlmVerif.Props.C04.T_qangle
 import GlmVerif.Props.C04.T_qaxis
+import GlmVerif.Props.C04.T_quatcast
 /-! every family table of C04 holds for the model generated from the current /repo -/
 namespace Glm.Props.C04
 open Glm Glm.Spec.C04 Glm.Gen.C04
@@ -65,5 +66,6 @@ theorem all_ok : ∀ f ∈ families, f.ok lookup = true := by
     (Family.ok_congr f_orientate3 (fun ks => by rw [show f_orientate3.unit = "orientate3" from rfl, lookup_orientate3])).trans orientate3_ok,
     (Family.ok_congr f_eulerAngles (fun ks => by rw [show f_eulerAngles.unit = "eulerAngles" from rfl, lookup_eulerAngles])).trans eulerAngles_ok,
     (Family.ok_congr f_qangle (fun ks => by rw [show f_qangle.unit = "qangle" from rfl, lookup_qangle])).trans qangle_ok,
-    (Family.ok_congr f_qaxis (fun ks => by rw [show f_qaxis.unit = "qaxis" from rfl, lookup_qaxis])).trans qaxis_ok⟩
+    (Family.ok_congr f_qaxis (fun ks => by rw [show f_qaxis.unit = "qaxis" from rfl, lookup_qaxis])).trans qaxis_ok,
+    (Family.ok_congr f_quatcast (fun ks => by rw [show f_quatcast.unit = "quatcast" from rfl, lookup_quatcast])).trans quatcast_ok⟩
 end Glm.Props.C04
